@@ -278,3 +278,52 @@ reg('C20', True,
     'who-may-call / value-flow taint of entropy and clock sources + record-table exhaustiveness + comparator key initialisation')
 for _p in []:
     reg(_p, False, '', '', '', PENDING)
+
+
+# ---- additions of build round 2 (rules written after the first registration; see DESIGN.md R2) -------------------------
+def _also(pid, extra, technique=None):
+    P[pid]['text'] = P[pid]['text'] + ' Also decided (DESIGN.md R2): ' + extra
+    if technique:
+        P[pid]['technique'] = P[pid]['technique'] + '; ' + technique
+
+
+_also('C01', 'the motion that is checked is the motion that is linked (argument agreement, 29 links); PRM::expandRoadmap joins consecutive '
+             'states of the validated walk only; informed trees (BIT*, ABIT*, AIT*, EIT*): forward-tree links and whitelist insertions are '
+             'dominated by a positive verdict for that same edge in the same orientation, the verdict helpers return the whitelist test or '
+             'the motion check of their edge, a cached motion validator that is used is re-read by setup(); EIT*\'s multi-resolution edge '
+             'check, interpreted over a finite domain (segment counts 1..40, every configurable initial level out of 0..8, every '
+             'sub-sequence of up to three sparse levels before the full-resolution check): a whitelisted edge was tested at positions that '
+             'leave no gap above two resolution lengths, an invalid tested point blacklists both ways; at a 3-argument check whose failure '
+             'keeps the candidate the last-valid target designates the candidate; the reported goal difference and the path / node / flag '
+             'it belongs to are assigned together (46 sites).',
+      'finite-domain interpretation of the EIT* edge-check routines; path-sensitive designation tracking')
+_also('C02', 'PathControl converts stored durations to step counts by rounding to nearest at all three sites; control::SpaceInformation '
+             'advances the system in single +-stepSize_ steps only.')
+_also('C03', 'every member written by the solve() closure is written by the clear() closure or is configuration (249 members, 27 reasoned '
+             'exceptions); helper classes of planners reset what they mutate (66); every sampling loop of a function that receives the '
+             'termination condition consults it or is bounded by a constant (56); a resumed solve re-measures the preserved solution into '
+             'the reported difference; states drawn by an interrupted rejection loop are used only where known valid; pruning conserves '
+             'nodes; a sub-planner run on an owned problem definition is preceded by clearSolutionPaths() on every path.')
+_also('C04', 'running cost and its item / flag / path are assigned together (26 blocks); parent, cost and incCost move together; tree links '
+             'are two-way; selected item and compared cost agree; provenance of stored edge costs (true motion cost, never an estimate) '
+             'and their orientation (parent -> child; the reverse cost only under the isSymmetric() guard); cost recurrences stay within one '
+             'cost field; in BIT*, AIT* and EIT* rewiring is decided by better(parent cost-to-come + stored edge cost, child cost-to-come).')
+_also('C06', 'compound folds with a guarded continue / break inside the loop are normalised (conditional terms / prefix sums) instead of '
+             'being outside the fragment.')
+_also('C07', 'in-bounds facts for SO(2) are the half-open interval of satisfiesBounds; the upper re-wrap test may be > or >=, the lower must '
+             'be strict; scratch states guard the input that is still read.')
+_also('C08', 'SO3StateSpace::enforceBounds in algebraic normal form, path by path: the result is the identity or a uniform scaling of the '
+             'input, and the small-norm path ends in the identity.')
+_also('C09', 'extractReachable copies every edge; load paths do not swallow failures; ordering functors over space-bearing elements '
+             '(getCommonSubspaces) compare a key that separates distinct spaces (name or pointer).')
+_also('C10', 'envelope maintenance directions; leaf storage reserved for max(split bounds) + 1 (pointers of the removed cache stay valid); '
+             'split() conserves the multiset and recognises pivots by position; a new metric reaches every holder before the rebuild.')
+_also('C13', 'the duplicate branch of components() erases the entry just dequeued and steps the index back to it (linear normal form); a '
+             'configured interior limit survives setDimension (all histories of three calls).')
+_also('C15', 'erase-while-iterating loops of the informed samplers advance their iterator exactly once per iteration.')
+_also('C17', 'checkAndRepair accepts a re-sampled vertex exactly when the detection test no longer fires (all paths up to length 5).')
+_also('C18', 'periodicEval, interpreted over scripted predicates: the predicate is polled once per answer and the cached value follows every '
+             'answer (a predicate that was true and is false again is seen false again); a pending request ends the thread.',
+      'finite-domain interpretation of the polling loop')
+_also('C19', 'writes through local non-const references bound to mutable members are followed (a shared mutable scratch buffer in a const '
+             'query is reported).')
